@@ -184,6 +184,9 @@ def run(ctx):
                 i_defs |= {M.render(a) for a in t.sub}
         E.has_call(ctx, "R3", "mutations-reader:each-mutation-from-bytes[i..]", prog, dms, r"decode::decode_mutation$", [r"^\(slice::get\(bytes, std::ops::RangeFrom::RangeFrom\{var:\w+\}\) as Some\)\.0$"])
         ok = "1" in i_defs and any(re.match(r"^AddWithOverflow\(var:\w+, essential_types::solution::Mutation::encode_size\(essential_types::solution::decode::decode_mutation\(.*\)\?\)\)\.0$", x) for x in i_defs) and len(i_defs) == 2
+        finals = [at for _, v, at in M.return_table(prog, dms) if v.startswith("Result::Ok") and at and not at[-1].startswith("Eq(0,")]
+        ctx.ob("R3", "mutations-reader:stops-exactly-at-the-end-of-the-input", len(finals) == 1 and re.match(r"^Le\(slice::len\(bytes\), var:\w+\)$", finals[0][-1]) is not None,
+               "%s:%d" % (dms.file, dms.line), "the list is returned under %s" % [f_[-1][:100] for f_ in finals], dms)
         ctx.ob("R3", "mutations-reader:cursor-starts-at-1-and-advances-by-encode_size", ok, "%s:%d" % (dms.file, dms.line), "cursor i is assigned %s" % sorted(x[:110] for x in i_defs), dms)
     ne = prog.fn("essential_types::predicate::Predicate::node_edges")
     if ctx.anchor("R3", "fn node_edges", ne):
